@@ -178,4 +178,5 @@ def main() -> None:
     net.finish("bounded", "valid streams from the reference encoder (2..5 statements, 3 physical types) x every catalogued violation class x every applicable row",
                "each case = (violation class, mutated byte string) confirmed invalid by the reference decoder; distinct by bytes")
 if __name__ == "__main__":
-    main()
+    from common import run_main
+    run_main(main, "C16")
